@@ -31,6 +31,32 @@ class C06Scenario(ChangeScenario):
     name = 'c06'
     prop = 'C06'
 
+    def __init__(self, **params: Any) -> None:
+        if not any(h['id'] == 'ev' for h in params['handlers']):
+            # a raw-event probe: tells which view of the object a cycle (and its finalizer decision) was based on
+            params = dict(params, handlers=list(params['handlers']) + [dict(id='ev', on='event', script=['ok'])])
+        super().__init__(**params)
+
+    def _decision_pattern(self, env: Env, w: dict, view_rv: int | None) -> str:
+        """Classify HOW a wrong finalizer write came about (for the known-findings signatures only).
+
+        'decided-on-older-view-than-tested-version': the cycle took its decision on view V, but patch_obj tested the
+        JSON-patch against a NEWER version (the one returned by the operator's own preceding merge-patch), and a
+        foreign write lies in between: the optimistic-concurrency test could not see it."""
+        req = next((r for r in env.world.requests if r.rid == w.get('rid')), None)
+        if req is None or view_rv is None or not isinstance(req.payload, list):
+            return 'other'
+        tests = [op.get('value') for op in req.payload if isinstance(op, dict) and op.get('op') == 'test']
+        if not tests or tests[0] is None:
+            return 'other'
+        tested = int(tests[0])
+        if tested <= view_rv:
+            return 'other'
+        uid = (w['pre'] or {}).get('metadata', {}).get('uid')
+        foreign = [x for x in env.world.writes if x['actor'] == 'user' and x['post'] is not None and x['post']['metadata'].get('uid') == uid
+                   and view_rv < int(x['post']['metadata']['resourceVersion']) <= tested]
+        return 'decided-on-older-view-than-tested-version' if foreign else 'other'
+
     def requiring(self) -> list[dict]:
         out = []
         for h in self.params['handlers']:
@@ -54,7 +80,11 @@ class C06Scenario(ChangeScenario):
         daemons: dict[tuple[str, str, int], dict] = {}        # (uid, id, inst) -> {enter, flag, exit, op}
         timers_running: dict[tuple[str, str], int] = {}
         hspec = {h['id']: h for h in self.params['handlers']}
+        view: dict[tuple[str, str], int] = {}    # (op, uid) -> version of the event being processed
         for t, k, p in env.obs:
+            if k == 'call' and p['id'] == 'ev':
+                view[(p['op'], p['uid'])] = int(p['rv'])
+                continue
             if k == 'kill':
                 dead_ops.add(p['op'])
             elif k == 'stop':
@@ -92,6 +122,8 @@ class C06Scenario(ChangeScenario):
                                          clause='foreign'))
                 had, has = FINALIZER in f_pre, FINALIZER in f_post
                 marked = 'deletionTimestamp' in pre['metadata']
+                opid = p['actor'].split(':')[1]
+                pattern = self._decision_pattern(env, w, view.get((opid, uid))) if had != has else 'other'
                 if had and not has:
                     if marked:
                         for h in req:
@@ -100,11 +132,11 @@ class C06Scenario(ChangeScenario):
                             if h['on'] == 'delete' and not final_delete.get((uid, h['id'])):
                                 out.append(self.viol(env, 'released-early',
                                                      f"t={t}: finalizer removed although the mandatory delete handler {h['id']} has not finished",
-                                                     clause='early', why='delete-handler'))
+                                                     clause='early', why='delete-handler', pattern=pattern))
                             if h['on'] == 'timer' and timers_running.get((uid, h['id']), 0) > 0:
                                 out.append(self.viol(env, 'released-early',
                                                      f"t={t}: finalizer removed while timer {h['id']} is running",
-                                                     clause='early', why='timer'))
+                                                     clause='early', why='timer', pattern=pattern))
                             if h['on'] == 'daemon':
                                 for (duid, did, inst), d in daemons.items():
                                     if duid != uid or did != h['id'] or d['exit'] is not None or d['op'] in dead_ops:
@@ -116,18 +148,18 @@ class C06Scenario(ChangeScenario):
                                         out.append(self.viol(env, 'released-early',
                                                              f"t={t}: finalizer removed while daemon {did} (flag at {d['flag']}, "
                                                              f"backoff={backoff}, timeout={timeout}) has neither exited nor been abandoned",
-                                                             clause='early', why='daemon'))
+                                                             clause='early', why='daemon', pattern=pattern))
                     else:
                         still = [h['id'] for h in req if self.matches(h, pre)]
                         if still:
                             out.append(self.viol(env, 'unblocked-while-required',
                                                  f"t={t}: finalizer removed from a live object that {still} still require",
-                                                 clause='live-removal'))
+                                                 clause='live-removal', pattern=pattern))
                 if not had and has:
                     need = [h['id'] for h in req if self.matches(h, pre)]
                     if not need and not marked:
                         out.append(self.viol(env, 'blocked-needlessly',
-                                             f"t={t}: finalizer added to an object that no handler requires", clause='needless'))
+                                             f"t={t}: finalizer added to an object that no handler requires", clause='needless', pattern=pattern))
                     if marked:
                         out.append(self.viol(env, 'blocked-while-deleting',
                                              f"t={t}: finalizer added to an object already marked for deletion", clause='needless'))
@@ -172,7 +204,7 @@ def scenarios(tier: str) -> tuple[list[C06Scenario], list[C06Scenario]]:
                     dict(id='d1', on='delete', script=d1, **({'labels': {'on': 'yes'}} if filt else {}))]
         if d2:
             handlers.append(dict(id='d2', on='delete', script=d2, optional=True))
-        for variant in ('plain', 'foreign', 'foreign2', 'toggle', 'strip', 'restart'):
+        for variant in ('plain', 'foreign', 'foreign2', 'toggle', 'toggle-quiet', 'toggle-back', 'strip', 'restart'):
             user: list[tuple] = [(1.0, 'create', 'a')]
             if filt:
                 user.append((2.0, 'label', 'a', 'on', 'yes'))
@@ -187,6 +219,19 @@ def scenarios(tier: str) -> tuple[list[C06Scenario], list[C06Scenario]]:
                 if not filt:
                     continue
                 user += [(5.0, 'label', 'a', 'on', 'no'), (8.0, 'label', 'a', 'on', 'yes'), (10.0, 'delete', 'a'), (11.0, 'label', 'a', 'on', 'no')]
+            elif variant == 'toggle-quiet':
+                # the label is switched off, then - around the operator's own finalizer removal - switched on again together
+                # with the deletion; nothing else ever happens to the object
+                if not filt:
+                    continue
+                user += [(5.0, 'label', 'a', 'on', 'no'), (5.5, 'labeldelete', 'a', 'on', 'yes')]
+            elif variant == 'toggle-back':
+                # marked for deletion with the delete handler between its retries; the label goes off (-> release decided) and on again
+                # around the operator's finalizer removal; nothing else ever happens to the object
+                if not filt:
+                    continue
+                user += [(5.0, 'label', 'a', 'on', 'no'), (8.0, 'label', 'a', 'on', 'yes'), (10.0, 'delete', 'a'), (11.0, 'label', 'a', 'on', 'no'),
+                         (11.5, 'label', 'a', 'on', 'yes')]
             elif variant == 'strip':
                 user += [(10.0, 'delete', 'a'), (10.5, 'strip', 'a')]
             elif variant == 'restart':
@@ -195,7 +240,7 @@ def scenarios(tier: str) -> tuple[list[C06Scenario], list[C06Scenario]]:
                 user += [(10.0, 'delete', 'a'), (11.0, 'status', 'a', 1)]
             sc = C06Scenario(handlers=handlers, user=user, settings=st, horizon=50.0, variant=variant)
             base.append(sc)
-            if variant in ('foreign', 'foreign2', 'toggle') and d1 != ['perm'] and d2 != ['temp', 'ok']:
+            if variant in ('foreign', 'foreign2', 'toggle', 'toggle-quiet', 'toggle-back') and d1 != ['perm'] and d2 != ['temp', 'ok']:
                 deep.append(sc)
     # F2: daemons and a sleeping timer
     for reaction, backoff, timeout in itertools.product(['obeys', 'cancel', 'ignore'], [None, 2.0], [None, 3.0]):
